@@ -8,21 +8,29 @@ NEEDS = ("dev",)
 KT_CYCLE = ["rsa4096", "ecdsa-p256", "rsa2048", "ed25519"]
 
 
-def issuance_history(chain_lens, key_types):
+def issuance_history(chain_lens, key_types, init=None, kp_reuse=False):
     """k consecutive issuances of one certificate into the same two paths (file name format without the key
     type), each with its own chain length and key type; short-lived certificates make every phase renew."""
     phases = []
     first = None
     for i, (cl, kt) in enumerate(zip(chain_lens, key_types)):
-        doc = cfg.base_doc(key_type=kt, cert_extra={"name": "hist", "file_name_format": "{{ name }}.{{ file_type }}.{{ ext }}"})
+        doc = cfg.base_doc(key_type=kt, cert_extra={"name": "hist", "file_name_format": "{{ name }}.{{ file_type }}.{{ ext }}", "kp_reuse": kp_reuse})
         ph = {"attempts": 1, "pre": [{"op": "ca_cfg", "ca": 0, "set": {"chain_len": cl}}]}
         if i == 0:
             first = doc
+            if init:
+                # what the two paths hold before the first issuance: another client's pair, or a key file that cannot be read
+                cp, kp = "certs/hist.crt.pem", "certs/hist.pk.pem"  # file_name_format above
+                op = {"op": "install_pair", "ca": 0, "cert_path": cp, "key_path": kp, "dns": ["a.example"], "ip": [], "not_after_off": 5 * 86400,
+                      "key_type": {"foreign": "foreign-secp256k1", "foreign-rsa": "foreign-rsa3072"}.get(init, kt)}
+                ph["pre"].append(op)
+                if init in ("garbage-key", "empty-key"):
+                    ph["pre"].append({"op": "truncate", "path": kp, "len": 40 if init == "garbage-key" else 0})
         else:
             ph["files"] = {"main.toml": cfg.to_toml(doc)}
         phases.append(ph)
     req = cfg.scenario(first, cas=[{"cert_lifetime_s": 10 * 86400}], phases=phases)
-    req["meta"] = {"chain_lens": list(chain_lens), "key_types": list(key_types)}
+    req["meta"] = {"chain_lens": list(chain_lens), "key_types": list(key_types), "init": init, "kp_reuse": kp_reuse}
     return req
 
 
@@ -48,7 +56,7 @@ def judge(req, obs):
             out.append(("cert=served", "C02|cert=served|%s" % d, "certificate file byte-for-byte the chain the CA returned (%d bytes)" % served[-1]["served_len"],
                         "file has %s bytes, sha256 %s.. instead of %s.." % (cert.get("len"), str(cert.get("sha256"))[:12], served[-1]["served_sha256"][:12])))
         if key.get("spki_sha256") != fin[-1]["csr"].get("spki_sha256"):
-            out.append(("key=csr-key", "C02|key=csr-key|%s->%s" % (m["key_types"][i - 1] if i else "none", m["key_types"][i]),
+            out.append(("key=csr-key", "C02|key=csr-key|%s->%s" % (m["key_types"][i - 1] if i else (m.get("init") or "none"), m["key_types"][i]),
                         "private-key file is the key whose public half was in the order's CSR", "key file %s (parses=%s), CSR %s" % (key.get("spki_sha256"), key.get("parses"), fin[-1]["csr"].get("spki_sha256"))))
         prev_len = cert.get("len")
     return out
@@ -59,7 +67,8 @@ def run(ctx):
     res.rule = ("E3: all write histories of depth 3 (quick) / 4 (thorough) per file type (certificate, private key, account) over 4 contents of "
                 "different lengths, from {absent, empty, 20 kB garbage}, through the real storage functions; after each write the file equals what was written "
                 "(account: same length as saved into an empty directory, and loads back equal). E1: histories of 1..3 consecutive issuances with chain lengths "
-                "{1..4}^k and alternating key types in one path; certificate file = served body, key file = CSR key.")
+                "{1..4}^k and alternating key types in one path, and issuances into paths that already hold an existing pair, another client's pair (secp256k1; RSA-3072 in thorough), "
+                "a truncated or an empty key file, with kp_reuse off and on; certificate file = served body, key file = CSR key.")
     depth = 3 if ctx.quick else 4
     outs = ctx.pool.map([{"op": "c02_histories", "file_type": ft, "depth": depth} for ft in ("crt", "pk", "account")], 900.0)
     for o in outs:
@@ -92,12 +101,17 @@ def run(ctx):
                 if "rsa4096" in kts and k == 3 and cls[0] != 4:
                     continue  # keep RSA-4096 generations few: the key length dimension is covered with chain 4
                 reqs.append(issuance_history(cls, kts))
+    # paths that already hold something the daemon did not write (x kp_reuse: with it the key file is read before it is replaced)
+    for init in ["existing", "foreign", "garbage-key", "empty-key"] + ([] if ctx.quick else ["foreign-rsa"]):
+        for kpr in (False, True):
+            for cl in ((1,), (4,)) if ctx.quick else ((1,), (4,), (1, 4), (4, 1)):
+                reqs.append(issuance_history(cl, [KT_CYCLE[1 + i] for i in range(len(cl))], init=init, kp_reuse=kpr))
     obs = e1.run_all(ctx.pool, reqs, 300.0)
     for r, o in zip(reqs, obs):
         e1.check_obs(o)
         res.evaluations += 1
         res.transitions += len(o.get("cps", []))
-        res.state_keys.update(("issuance", tuple(r["meta"]["chain_lens"][:i + 1]), tuple(r["meta"]["key_types"][:i + 1])) for i in range(len(r["meta"]["chain_lens"])))
+        res.state_keys.update(("issuance", r["meta"].get("init"), r["meta"].get("kp_reuse"), tuple(r["meta"]["chain_lens"][:i + 1]), tuple(r["meta"]["key_types"][:i + 1])) for i in range(len(r["meta"]["chain_lens"])))
         res.outcomes["issuances:" + flows.outcome_class(o)[:60]] += 1
         if res.evaluations % 17 == ctx.seed % 17:
             res.add_sample({"issuance_history": r["meta"], "cert_lens": [a.end["files"]["cert"].get("len") for a in e1.split_attempts(o["events"]) if a.end]})
